@@ -176,4 +176,6 @@ HistNext == /\ Len(hist) < D
 HistSpec == HistInit /\ [][HistNext]_mcvars
 
 Emit == Len(hist) = D => PrintT(<<"H", hist>>)
+\* the same on one line per history (ToString does not wrap): what the harness parses
+EmitS == Len(hist) = D => PrintT(<<"H", ToString(hist)>>)
 =============================================================================
